@@ -9,6 +9,7 @@ import SJ.Proofs.LexTopParser
 import SJ.Props.C03
 import SJ.Proofs.TypedSerClosed
 import SJ.Proofs.TypedFloatLink
+import SJ.Proofs.TypedPrettyAll
 /-!
 # C04 — serialise then deserialise is the identity (the `Value` clause)
 
@@ -520,6 +521,71 @@ example : ∃ bufs, serCompact ext0 (Model.TypedSer.progOf exSchema exTV) = .ok 
     Model.Typed.deTypedTop { cfg := {}, src := .reader } exSchema bufs.flatten = .ok exTV :=
   c04_typed_partial {} rfl .reader ext0 ext0_ok exSchema (by decide) exTV (by decide) (by decide) (.inr (by decide))
 
+/-- the pretty formatter's layout for a whitespace indent: a line break and `depth` copies of the indent before every element /
+    member and before the closing bracket, one space after the colon -/
+def prettyLay (indent : Bytes) (hind : Ws indent) : Proofs.TypedPretty.Lay :=
+  ⟨Spec.Image.newline indent, [0x20], fun d => Proofs.TypedPretty.wsB_of_ws (SJ.Proofs.SerLayout.ws_newline indent hind d),
+   fun c hc => by simp at hc; subst hc; decide⟩
+
+/-- **C04 (typed values, PRETTY formatter) — partial** (the name says what `c04_typed_partial` leaves out, not the formatter:
+    on its fragment the pretty statement is complete). For every schema of `agreeFragT` and every well-formed typed value
+    as in `c04_typed_partial` (same hypotheses: `wfTV`, `FloatsRoundTrip` on the `f64` members, depth), and every indent made
+    of JSON whitespace (`Ws indent`; `to_string_pretty` uses two spaces): `to_string_pretty` — the calls `Serialize` makes run
+    through `serPretty` — succeeds, and `from_str::<T>` of that text (typed deserializer + `end()`, any source) returns `v`.
+    By composition: C03 (`c03_pretty_layout`: the text is `layout indent` of the program's image), `image_progOf`,
+    `fromValue_valueOf`, and the text leg on a LAYOUT (`agree_gen_L`, `Proofs/TypedPretty*.lean`: the typed reader skips
+    whitespace wherever the pretty printer puts it — before every element, member and closing bracket, after every `:`).
+    Missing: exactly what `c04_typed_partial` misses (`f32` members, `Value` members, zero-length tuple variants,
+    `arbitrary_precision`). -/
+theorem c04_typed_pretty_partial (mcfg : Cfg) (hap : mcfg.ap = false) (src : Src) (ext : Ext) (hext : ExtOK ext)
+    (indent : Bytes) (hind : Ws indent)
+    (s : Schema) (hs : Proofs.Typed.agreeFragT s = true) (v : TVal) (hw : Model.TypedSer.wfTV s v = true)
+    (hF : FloatsRoundTrip mcfg ext (Model.TypedSer.valueOf s v))
+    (hd : mcfg.limitOff = true ∨ depthJV (Model.TypedSer.valueOf s v) ≤ 127) :
+    ∃ bufs, serPretty ext indent (Model.TypedSer.progOf s v) = .ok bufs ∧
+      Model.Typed.deTypedTop { cfg := mcfg, src := src } s bufs.flatten = .ok v := by
+  have himg := Proofs.TypedSer.image_progOf ext hext s v hw
+  have hpw := Proofs.TypedSer.progOf_wf s v hw
+  cases hser : serPretty ext indent (Model.TypedSer.progOf s v) with
+  | error e =>
+    have := ((SJ.Props.C03.c03_error_iff ext hext _ e).2 indent).1 hser
+    rw [himg] at this; cases this
+  | ok bufs =>
+    refine ⟨bufs, rfl, ?_⟩
+    obtain ⟨d, hd', htext, _⟩ := SJ.Props.C03.c03_pretty_layout ext hext indent _ hpw bufs hser
+    rw [himg] at hd'; cases hd'
+    rw [htext]
+    have hvok := Proofs.TypedSer.vok_valueOf s v hs hw
+    have hfv := Proofs.TypedSer.fromValue_valueOf { po := mcfg.po, fr := mcfg.fr, ap := false } rfl {} s v hs hw
+    have hag := Proofs.TypedPretty.agree_gen_L ext (prettyLay indent hind) hext (env := { cfg := mcfg, src := src }) rfl hap
+      { po := mcfg.po, fr := mcfg.fr, ap := false } rfl {} Proofs.TypedSer.RT Proofs.TypedSer.closed_RT
+      (fun h => by cases h) (fun w v h _ b => Proofs.TypedSer.rt_int_notFloat w v h b) Proofs.TypedSer.rt_f64_range
+      Proofs.TypedSer.rt_struct_notArr (fun fs kvs h => Proofs.TypedSer.rt_struct_known fs false kvs h)
+      (Model.Typed.Schema.size s + 1) s (by omega) hs 0 0 (Model.TypedSer.valueOf s v) hvok.1 hF
+      (by rcases hd with h | h
+          · exact .inl h
+          · exact .inr (by omega)) ⟨v, hw, rfl⟩ [] 0 (.inl rfl)
+    rw [hfv] at hag
+    simp only [List.append_nil] at hag
+    have hT : Proofs.TypedPretty.TL ext (prettyLay indent hind) 0 (Model.TypedSer.valueOf s v) =
+        Spec.Image.layout indent (Spec.Image.imageOfValue ext (Model.TypedSer.valueOf s v)) := rfl
+    rw [hT] at hag
+    unfold Model.Typed.deTypedTop
+    rw [hag]
+    simp [Model.Stream.skipWs]
+
+/-- **C04 (typed values, pretty) under `float_roundtrip`**: all finite `f64` members, from `RyuShortest` -/
+theorem c04_typed_pretty_fr (mcfg : Cfg) (hfr : mcfg.fr = true) (hap : mcfg.ap = false) (src : Src) (ext : Ext) (hext : ExtOK ext)
+    (hr : SJ.Proofs.LexTopRoundtrip.RyuShortest ext) (indent : Bytes) (hind : Ws indent)
+    (s : Schema) (hs : Proofs.Typed.agreeFragT s = true) (v : TVal) (hw : Model.TypedSer.wfTV s v = true)
+    (hd : mcfg.limitOff = true ∨ depthJV (Model.TypedSer.valueOf s v) ≤ 127) :
+    ∃ bufs, serPretty ext indent (Model.TypedSer.progOf s v) = .ok bufs ∧
+      Model.Typed.deTypedTop { cfg := mcfg, src := src } s bufs.flatten = .ok v :=
+  c04_typed_pretty_partial mcfg hap src ext hext indent hind s hs v hw
+    (Proofs.TypedSer.floatsRT_of_finite _ ext
+      (fun b hb => SJ.Proofs.LexTopParser.floatRT_fr (specCfg mcfg) hfr hap ext hext hr b hb) _
+      (Proofs.TypedSer.vok_valueOf s v hs hw).2) hd
+
 /-- **C04 (typed values), the `f32` leaf under `float_roundtrip`.** `to_string(x)` for a finite `x : f32` (the serializer
     prints it with `ryu`'s binary32 digits) followed by `from_str::<f32>` returns `x`, bit for bit (`-0.0` and subnormals
     included), from every source: the typed `f32` path (`single_precision`: parse straight to binary32, `Typed.f32Roundtrip`)
@@ -560,6 +626,16 @@ def exFTV : TVal := .struct_ [.f64 0x3ff8000000000000, .seq [.int 1, .int 2]]
 example : ∃ bufs, serCompact ext0 (Model.TypedSer.progOf exFSchema exFTV) = .ok bufs ∧
     Model.Typed.deTypedTop { cfg := {}, src := .slice } exFSchema bufs.flatten = .ok exFTV :=
   c04_typed_partial {} rfl .slice ext0 ext0_ok exFSchema (by decide) exFTV (by decide) (by decide +kernel) (.inr (by decide))
+
+/-- the same two values through the pretty printer (indent: two spaces; a tab), read back from a reader -/
+example : ∃ bufs, serPretty ext0 [0x20, 0x20] (Model.TypedSer.progOf exSchema exTV) = .ok bufs ∧
+    Model.Typed.deTypedTop { cfg := {}, src := .reader } exSchema bufs.flatten = .ok exTV :=
+  c04_typed_pretty_partial {} rfl .reader ext0 ext0_ok [0x20, 0x20] (by decide) exSchema (by decide) exTV (by decide) (by decide)
+    (.inr (by decide))
+example : ∃ bufs, serPretty ext0 [0x09] (Model.TypedSer.progOf exFSchema exFTV) = .ok bufs ∧
+    Model.Typed.deTypedTop { cfg := {}, src := .slice } exFSchema bufs.flatten = .ok exFTV :=
+  c04_typed_pretty_partial {} rfl .slice ext0 ext0_ok [0x09] (by decide) exFSchema (by decide) exFTV (by decide) (by decide +kernel)
+    (.inr (by decide))
 
 /-- the exception is needed: `Some(())` serialises as `null` and reads back as `None` -/
 example : Model.TypedSer.wfTV (.option .unit) (.some .unit) = false ∧
